@@ -46,7 +46,9 @@ package scheduler
 // deduplication map, and only when the task is final (not on the retry on the
 // largest size class).
 //@ func (*task).complete
-//@   props C03 C01 C05 C07 C04 C02
+//@   props C03 C01 C05 C07 C04 C02 C06
+//@   ensures a-task-that-leaves-its-worker-without-a-final-result-wakes-everyone-waiting-for-a-stage-change:
+//@             old(t.executeResponse) == nil && t.executeResponse == nil ==> isnew(t.stageChangeWakeup)
 //@   ensures a-completed-task-stays-as-it-is: old(t.executeResponse) != nil ==> t.executeResponse == old(t.executeResponse) && t.stageChangeWakeup == old(t.stageChangeWakeup)
 //@   ensures final-completion-stores-the-response-the-caller-gave:
 //@             old(t.executeResponse) == nil && t.executeResponse != nil ==> t.executeResponse == executeResponse && t.stageChangeWakeup == nil
